@@ -88,7 +88,7 @@ func okCount(h *History, kinds ...string) int {
 var ProfileC01 = &Profile{
 	MultiMsg: true,
 	ID:       "C01", Name: "amm-mixed", Weights: mixedWeights(), MinBlocks: 5, MaxBlocks: 40, MaxTxs: 5,
-	Spec: withSkew(specDefault), Check: CheckC01,
+	Spec: withSkew(specDefault), Check: CheckC01, PreBlock: govModules("amm", "perpetual", "leveragelp"),
 	Rule: "history with >=2 writer kinds on pools (amm swap/join/exit plus perpetual or leveragelp) and >=10 successful pool-mutating txs",
 	NonTrivial: func(h *History) bool {
 		amm := okCount(h, "amm.swap_in", "amm.swap_out", "amm.swap_in_2hop", "amm.swap_out_2hop", "amm.swap_by_denom", "amm.join", "amm.exit")
@@ -114,7 +114,7 @@ func withWeights(base map[string]int, over map[string]int) map[string]int {
 
 var ProfileC02 = &Profile{
 	MultiMsg: true,
-	ID:       "C02", Name: "shares", MinBlocks: 5, MaxBlocks: 40, MaxTxs: 5, Spec: specDefault, Check: CheckC02,
+	ID:       "C02", Name: "shares", MinBlocks: 5, MaxBlocks: 40, MaxTxs: 5, Spec: specDefault, Check: CheckC02, PreBlock: govModules("amm", "leveragelp"),
 	Weights: withWeights(mixedWeights(), map[string]int{"amm.join": 14, "amm.exit": 14, "leveragelp.open": 10, "leveragelp.close": 8, "leveragelp.close_positions": 3, "perpetual.open": 2, "perpetual.close": 2}),
 	Rule:    "history with >=1 join and >=1 exit and >=1 leveragelp open or close (all successful)",
 	NonTrivial: func(h *History) bool {
@@ -147,6 +147,24 @@ var ProfileC03 = &Profile{
 	},
 }
 
+// govModules: now and then governance executes a parameter proposal of one of the named modules (boundary
+// values accepted by every validation layer, possibly written from an earlier snapshot) while positions, orders
+// and requests opened under the old parameters are still there. Accounting identities do not depend on parameters.
+func govModules(mods ...string) func(h *History, g *G) []EnvAction {
+	return func(h *History, g *G) []EnvAction {
+		for _, m := range mods {
+			recordParamSnapshot(h, m)
+		}
+		if g.Int("gov?", 0, 7) != 0 {
+			return nil
+		}
+		if e := GenParamChangeFor(h, g, mods[g.Pick("gov/module", len(mods))]); e != nil {
+			return []EnvAction{*e}
+		}
+		return nil
+	}
+}
+
 // vaultGov: now and then governance executes a stablestake parameter proposal – written from the parameters as
 // they were at some earlier block of the history (see GenParamChangeFor).
 func vaultGov(h *History, g *G) []EnvAction {
@@ -175,7 +193,7 @@ var ProfileC06 = &Profile{
 
 var ProfileC08 = &Profile{
 	MultiMsg: true,
-	ID:       "C08", Name: "leveragelp", MinBlocks: 5, MaxBlocks: 40, MaxTxs: 5, Spec: specLending, Check: CheckC08,
+	ID:       "C08", Name: "leveragelp", MinBlocks: 5, MaxBlocks: 40, MaxTxs: 5, Spec: specLending, Check: CheckC08, PreBlock: govModules("leveragelp", "stablestake"),
 	Weights: map[string]int{"stablestake.bond": 8, "stablestake.unbond": 4, "leveragelp.open": 16, "leveragelp.close": 12, "leveragelp.close_positions": 6,
 		"leveragelp.update_stop_loss": 4, "leveragelp.claim_rewards": 2, "oracle.feed_price": 10, "amm.swap_in": 4, "amm.swap_out": 2, "amm.join": 2, "amm.exit": 2},
 	Rule: "history with >=1 forced close (position gone without an owner close tx) and >=1 partial close and >=1 consolidating open",
@@ -186,7 +204,7 @@ var ProfileC08 = &Profile{
 
 var ProfileC09 = &Profile{
 	MultiMsg: true,
-	ID:       "C09", Name: "perpetual", MinBlocks: 5, MaxBlocks: 40, MaxTxs: 5, Spec: specDefault, Check: combine(CheckC09),
+	ID:       "C09", Name: "perpetual", MinBlocks: 5, MaxBlocks: 40, MaxTxs: 5, Spec: specDefault, Check: combine(CheckC09), PreBlock: govModules("perpetual", "amm"),
 	Weights: map[string]int{"perpetual.open": 18, "perpetual.close": 10, "perpetual.close_positions": 6, "perpetual.update_stop_loss": 3, "perpetual.update_take_profit": 3,
 		"oracle.feed_price": 10, "amm.swap_in": 5, "amm.swap_out": 3, "amm.join": 3, "amm.exit": 3, "stablestake.bond": 1,
 		// positions also come into being and end through tradeshield's limit orders, executed by a third party
@@ -199,7 +217,7 @@ var ProfileC09 = &Profile{
 
 var ProfileC11 = &Profile{
 	MultiMsg: true,
-	ID:       "C11", Name: "accounted", MinBlocks: 5, MaxBlocks: 40, MaxTxs: 5, Spec: specDefault, Check: CheckC11,
+	ID:       "C11", Name: "accounted", MinBlocks: 5, MaxBlocks: 40, MaxTxs: 5, Spec: specDefault, Check: CheckC11, PreBlock: govModules("perpetual", "amm"),
 	Weights: withWeights(ProfileC09.Weights, map[string]int{"amm.swap_in": 10, "amm.swap_out": 6, "amm.join": 5, "amm.exit": 5}),
 	Rule:    "history with amm writers and perpetual writers on the same pool, including >=1 block whose last pool writer was a perpetual handler",
 	NonTrivial: func(h *History) bool {
@@ -443,7 +461,9 @@ var ProfileC18Params = func() *Profile {
 		if g.Bool("pg/knob?") {
 			e = GenGovKnob(h, g)
 		} else {
+			drawModeFields = true
 			e = GenParamChange(h, g)
+			drawModeFields = false
 		}
 		if e != nil {
 			return []EnvAction{*e}
